@@ -162,7 +162,9 @@ impl Transformation<String> {
   pub fn used_vars(&self) -> &str {
     // NOTE: meta_var in transform always starts with `$`, for now
     let s = self.source();
-    s.strip_prefix("$$$").unwrap_or_else(|| &s[1..])
+    // an empty or one-character source is reported as malformed by `parse`, not here
+    s.strip_prefix("$$$")
+      .unwrap_or_else(|| s.get(1..).unwrap_or(""))
   }
 }
 impl Transformation<MetaVariable> {
